@@ -22,15 +22,15 @@ META = {
 def run(ctx, R):
     R.explanation = 'Exceptional edges of every function on the synchronous delivery chain.'
     declare(R, {**failure.RULES, **holds.RULES, **flow.RULES, 'ACC-CONTRACT': folds.RULES['ACC-CONTRACT'] + ' (the state is committed before delivery, so a failure downstream does not roll the node back)'}, RULES, FLOORS)
-    failure.check_reraise(ctx, R)
-    failure.check_state_after_call(ctx, R)
-    failure.check_no_swallowing_gather(ctx, R)
-    folds.check_acc_contract(ctx, R)
-    holds.check_emit(ctx, R)
+    R.run(failure.check_reraise, ctx, R)
+    R.run(failure.check_state_after_call, ctx, R)
+    R.run(failure.check_no_swallowing_gather, ctx, R)
+    R.run(folds.check_acc_contract, ctx, R)
+    R.run(holds.check_emit, ctx, R)
     for k in [k for k in R.obs if k[0] not in RULES]:
         del R.obs[k]
-    flow.check_sync_transport(ctx, R)
-    flow.check_emit_convert(ctx, R)
+    R.run(flow.check_sync_transport, ctx, R)
+    R.run(flow.check_emit_convert, ctx, R)
 
 
 META['level'] += ' No gather(..., return_exceptions=True) on the delivery chain (NO-SWALLOWING-GATHER); accumulate commits its state before delivering (ACC-CONTRACT).'
